@@ -3,7 +3,7 @@ CONSTANTS
   Secrets = {"s1", "s2"}
   Phantoms = {"p4", "p6"}
   Transports = {"min", "prefix"}
-  KeyMode = "secret"
+  KeyMode = "ident"
   TU = 2
   TA = 5
   MaxAge = 6
@@ -11,8 +11,9 @@ CONSTANTS
   TickSteps = {1, 3}
   MaxTracked = 2
   SweepCap = 0
-  IndexMode = "exact"
+  IndexMode = "keep-unvalidated"
 VIEW view
 CONSTRAINT Bounded
 INVARIANTS TypeOK OneRecordPerRegistration IndexExact PostSweepExact ExpiredNeverMatchesAfterSweep
+PROPERTIES NeverRemovedEarly ValidMonotone
 CHECK_DEADLOCK FALSE
